@@ -6,6 +6,9 @@ CHECKS = {
  "C12": ("exploration", "bounded-exhaustive enumeration of expression trees grouped by implementation signature; exact polynomial normal form + complete integer grid as oracle",
          "Every expression tree of the stated alphabets up to 2-5 leaves, every permutation x bracketing of +/* chains over a 16-term operand pool, and every single-point mutant are enumerated; same signature must mean same exact value, AC-rearrangements must share a signature. Exhaustive to the bound, so a normaliser bug that needs a particular operand shape (unary minus, nested subtraction) is found if it shows within the bound.",
          "CPython ast; exact Fraction arithmetic; values outside the grid {-2..3} and expressions beyond the leaf bound are not explored", "3 C12"),
+ "C11": ("exploration", "bounded-exhaustive enumeration of expression ASTs (every ast.expr class x every child position, depth 3) against a reference whitelist walk; audit hook during compile and evaluation",
+         "Every expression AST up to depth 3 over every expression node class and operator class of the running interpreter (full product at depth 2, every class x every child position at depth 3) and an escape corpus embedded at 22 positions nested twice are pushed through ExpressionEvaluator.compile; whatever is accepted must pass an independent whitelist walk that visits every child position, a code-object name check and an audited evaluation. Exhaustive to the depth bound, so an unvisited child position is found by enumeration of positions, not of attacks.",
+         "CPython ast / ast.unparse round trip; sys.addaudithook; codec-lookup imports of the whitelisted str() builtin (encodings.*) are not counted as an escape", "3 C11"),
 }
 NA = []
 def main():
